@@ -115,6 +115,16 @@ def exit_envs(f, inn, before):
     return out
 
 
+R3_COVERED = ('append', 'fetch')
+
+
+def after_selfcall(f, events, bend):
+    """does some path to the end of block `bend` run through a call of another mutator of the same object?"""
+    blk = f.cfg.blocks[bend]
+    endp = (bend, max(len(blk.el) - 1, 0))
+    return any(sc['kind'] == 'selfcall' and (sc['pt'][0] == bend or f.cfg.exists_path(sc['pt'], endp)) for sc in events)
+
+
 def fmt(x):
     return repr(x) if x is not None else 'unknown'
 
@@ -129,10 +139,14 @@ def r1_invariant(ctx, prog):
         if not writes or f.short in ('swap',):
             continue
         ev, inn, before, events = analyse(prog, f)
-        if any(e['kind'] == 'selfcall' for e in events):
-            continue   # composed from other mutators: covered through them
         sig = f.params[0]['t'] if f.params else ''
         for line, env, facts, resolved, bend in path_ends(ev, f, before):
+            if after_selfcall(f, events, bend):
+                # the path runs through another mutator: the state after it is that mutator's exit state, covered there — unless this function writes an index
+                # after the call, which the per-function analysis cannot follow
+                if any(env.get(('f', x)) is not TOP for x in ('read_index_', 'write_index_', 'buffer_size_')):
+                    raise AnalysisBroken('%s writes an index after calling another mutator: not decidable per function' % f.name)
+                continue
             n += 1
             if not resolved:
                 raise AnalysisBroken('%s: merges nest deeper than the affine analysis tracks' % f.name)
@@ -153,9 +167,11 @@ def r2_copies(ctx, prog):
     for f in prog.methods_of(B):
         ev, inn, before, events = analyse(prog, f)
         copies = [e for e in events if e['kind'] in ('memcpy', 'memmove')]
-        if any(e['kind'] == 'selfcall' for e in events):
+        if f.short in R3_COVERED:
             continue   # append/fetch are composed from the primitives: their copies are decided structurally by C07.R3
         for e in copies:
+            if any(sc['kind'] == 'selfcall' and (sc['pt'][0] == e['pt'][0] and sc['pt'][1] < e['pt'][1] or f.cfg.exists_path(sc['pt'], e['pt'])) for sc in events):
+                raise AnalysisBroken('%s copies after calling another mutator: neither the affine analysis (state unknown after the call) nor C07.R3 (append/fetch only) decides it' % f.name)
             n += 1
             dst, src, ln = e['dst'], e['src'], e['len']
             env = e['env']
@@ -192,6 +208,8 @@ def r2_copies(ctx, prog):
                 # only path ends that lie after the copy
                 if not (bend == e['pt'][0] or f.cfg.exists_path(e['pt'], (bend, 0)) or (f.cfg.blocks[bend].el and f.cfg.exists_path(e['pt'], (bend, len(f.cfg.blocks[bend].el) - 1)))):
                     continue
+                if after_selfcall(f, events, bend):
+                    raise AnalysisBroken('%s calls another mutator between a copy and the exit: the exit indices cannot be related to the copy' % f.name)
                 if not resolved:
                     raise AnalysisBroken('%s: merges nest deeper than the affine analysis tracks' % f.name)
                 rr, ww = xenv.get(('f', 'read_index_')), xenv.get(('f', 'write_index_'))
@@ -358,6 +376,148 @@ def r5_commit_after_alloc(ctx, prog):
         raise AnalysisBroken('expected >= 2 allocations inside Buffer (ensureWritableSize, cloneFrom), found %d' % n)
 
 
+def r6_primitives(ctx, prog):
+    ctx.rule('C07.R6', 'affine dataflow, postconditions of the window primitives everything else is composed from: hasWritten(n) leaves write = min(write + n, size); hasRead(n) '
+                       'leaves either the window [read + n, write) when n <= readable or an empty window when n >= readable; hasReadAll() leaves an empty window; none of them '
+                       'touches the storage pointer or the capacity; the accessors return write - read, size - write, ptr + read, ptr + write', floor=7)
+    R0, W0, S0 = Aff.sym('R0'), Aff.sym('W0'), Aff.sym('S0')
+
+    def zero(x):
+        return isinstance(x, Aff) and x.is_const() and x.c == 0
+    n = 0
+    for name in ('hasWritten', 'hasRead', 'hasReadAll'):
+        f = prog.fn1(B + '::' + name)
+        ev, inn, before, events = analyse(prog, f)
+        if any(e['kind'] == 'selfcall' for e in events):
+            raise AnalysisBroken('%s is composed from other mutators: the primitive postconditions have to be stated for those' % f.name)
+        arg = Aff.sym(f.params[0]['n']) if f.params else None
+        for line, env, facts, resolved, bend in path_ends(ev, f, before):
+            n += 1
+            if not resolved:
+                raise AnalysisBroken('%s: merges nest deeper than the affine analysis tracks' % f.name)
+            rr, ww, ss, pp = env.get(('f', 'read_index_')), env.get(('f', 'write_index_')), env.get(('f', 'buffer_size_')), env.get(('f', 'buffer_ptr_'))
+            frame = isinstance(ss, Aff) and zero(ss - S0) and pp == Ptr('B0', Aff(0))
+            if not (isinstance(rr, Aff) and isinstance(ww, Aff)):
+                ok, want = False, 'tracked indices'
+            elif name == 'hasWritten':
+                a = W0 + arg
+                ok = zero(rr - R0) and ((zero(ww - a) and nonneg(S0 - a, CHAINS, facts)) or (zero(ww - S0) and nonneg(a - S0, CHAINS, facts)))
+                want = 'write = min(W0 + %s, S0), read unchanged' % f.params[0]['n']
+            elif name == 'hasRead':
+                l0 = W0 - R0
+                ok = (zero(rr - R0 - arg) and zero(ww - W0) and nonneg(l0 - arg, CHAINS, facts)) or (zero(ww - rr) and nonneg(arg - l0, CHAINS, facts))
+                want = 'the window [R0 + %s, W0) if %s <= W0 - R0, an empty window if %s >= W0 - R0' % ((f.params[0]['n'],) * 3)
+            else:
+                ok = zero(ww - rr)
+                want = 'an empty window'
+            ok = ok and frame
+            ctx.ob('C07.R6', '%s|path-end@%s' % (f.name, (line - f.line) if line else 'end'), ok,
+                   'read=%s write=%s: %s' % (fmt(rr), fmt(ww), want) if ok else
+                   'on this path %s ends with read_index_=%s, write_index_=%s, buffer_size_=%s, buffer_ptr_=%s; its callers (append, fetch, the socket read/write paths) rely on %s with '
+                   'pointer and capacity untouched: the bytes accounted for are not the bytes that were copied' % (f.short, fmt(rr), fmt(ww), fmt(ss), fmt(pp), want),
+                   where='%s:%s' % (f.file.replace('/repo/', ''), line) if line else f.loc(f.body))
+    for name, want in (('readableSize', W0 - R0), ('writableSize', S0 - W0), ('readableBegin', Ptr('B0', R0)), ('writableBegin', Ptr('B0', W0))):
+        g = prog.fn1(B + '::' + name)
+        ev = Evaluator(prog, g, B, FIELDS, ptr_fields=('buffer_ptr_',))
+        rets = q.returns(g)
+        vals = [ev.ev(r.get('val'), ev.entry_env()) for r in rets]
+        n += 1
+        ok = bool(vals) and all(v == want for v in vals)
+        ctx.ob('C07.R6', '%s|returns' % g.name, ok, 'returns %s' % fmt(want) if ok else
+               '%s() returns %s where every user of the buffer reads it as %s' % (g.short, ', '.join(fmt(v) for v in vals) or 'nothing', fmt(want)), where=g.loc(g.body))
+    if n < 7:
+        raise AnalysisBroken('expected >=7 primitive postconditions (3 mutators, 4 accessors), found %d' % n)
+
+
+UMAX = 2 ** 64 - 1
+
+
+def _wrap_tested(f, ev, st, before):
+    """the sum is stored in a local v whose every other use lies behind the false edge of `v < operand` (the unsigned wrap test)"""
+    par = f.parent_of(st['i']) if hasattr(f, 'parent_of') else None
+    v = None
+    for d in f.stmts:
+        if d and d['k'] == 'DeclStmt':
+            for dd in d['decls']:
+                if 'init' in dd and f.strip_casts(dd['init']) == st['i']:
+                    v = dd['d']
+    if v is None:
+        return False
+    ops = {f.path(c) for c in st['ch']}
+    test = None
+    for blk in f.cfg.blocks.values():
+        c = f.s(f.strip_casts(blk.cond)) if blk.cond is not None else None
+        if c and c['k'] == 'BinaryOperator' and c.get('op') in ('<', '>'):
+            l_, r_ = f.s(f.strip_casts(c['ch'][0])), f.s(f.strip_casts(c['ch'][1]))
+            small, big = (l_, r_) if c['op'] == '<' else (r_, l_)
+            if small and small['k'] == 'DeclRefExpr' and small.get('d') == v and big is not None and f.path(big['i']) in ops:
+                test = c
+    if test is None:
+        return False
+    for u in f.stmts:
+        if u and u['k'] == 'DeclRefExpr' and u.get('d') == v and u['i'] not in set(f.walk(test['i'])):
+            p = f.cfg.point_of(u['i'])
+            if p is None or not any(cond is not None and f.strip_casts(cond) == test['i'] and k == 1 for cond, k, b in f.cfg.controlling_branches(p)):
+                return False
+    return True
+
+
+def r7_no_wrap(ctx, prog):
+    ctx.rule('C07.R7', 'the affine proofs above reason over the integers; this rule discharges that assumption for the machine\'s unsigned arithmetic: in every Buffer method each '
+                       'unsigned difference is provably >= 0 and each unsigned sum / doubling is provably <= a representable quantity (a field, a parameter, a constant <= SIZE_MAX) '
+                       'under the entry invariant and the dominating guards, or is the operand of the wrap test "sum < operand" that guards its every use', floor=5)
+    n = scanned = 0
+    for f in prog.methods_of(B):
+        scanned += 1
+        arith = [st for st in f.stmts if st and 'cv' not in st and '*' not in (st.get('ct') or st.get('t') or '') and
+                 ((st['k'] == 'BinaryOperator' and st.get('op') in ('+', '-', '<<', '*')) or (st['k'] == 'CompoundAssignOperator' and st.get('op') in ('+=', '-=', '<<=', '*=')) or
+                  (st['k'] == 'UnaryOperator' and st.get('op') in ('++', '--'))) and (st.get('ct') or st.get('t') or '') in ('unsigned long', 'size_t', 'unsigned int', 'uint32_t', 'uint64_t')]
+        if not arith:
+            continue
+        ev, inn, before, events = analyse(prog, f)
+        for st in arith:
+            pt = f.cfg.point_of(st['i'])
+            env = before.get(pt) if pt is not None else None
+            tag = '%s|%s@%d' % (f.name, st['op'], st['l'] - f.line)
+            if env is None:
+                continue        # unreachable
+            n += 1
+            if st['k'] == 'UnaryOperator':
+                a, b = ev.ev(st['ch'][0], env), Aff(1)
+                op = '+' if st['op'] == '++' else '-'
+            else:
+                a, b = ev.ev(st['ch'][0], env), ev.ev(st['ch'][1], env)
+                op = st['op'].rstrip('=') if st['k'] == 'CompoundAssignOperator' else st['op']
+            if not (isinstance(a, Aff) and isinstance(b, Aff)):
+                if any(sc['kind'] == 'selfcall' and (sc['pt'][0] == pt[0] and sc['pt'][1] < pt[1] or f.cfg.exists_path(sc['pt'], pt)) for sc in events):
+                    n -= 1
+                    continue    # after another mutator: the fields are that mutator's exit state; only calls with a checked contract follow (C07.R3)
+                ctx.ob('C07.R7', tag + '|resolved', False, 'operands are not affine in the entry state (%s, %s): cannot bound the result' % (fmt(a), fmt(b)), where=f.loc(st['i']))
+                continue
+            facts = guard_facts(ev, f, pt, before)
+            if op == '-':
+                r = a - b
+                ok = nonneg(r, CHAINS, facts)
+                ctx.ob('C07.R7', tag, ok, '%s >= 0' % fmt(r) if ok else 'the unsigned difference %s is not provably >= 0 here: for the values on which it is negative it wraps to a huge size' % fmt(r),
+                       where=f.loc(st['i']))
+                continue
+            if op == '+':
+                r = a + b
+            elif op in ('<<', '*') and b.is_const():
+                r = a.scale(2 ** int(b.c) if op == '<<' else b.c)
+            else:
+                ctx.ob('C07.R7', tag + '|resolved', False, 'a product of two variable sizes cannot be bounded', where=f.loc(st['i']))
+                continue
+            syms = set(r.t) | {'S0', 'W0', 'R0'}
+            bounds = [Aff.sym(x) for x in sorted(syms)] + [Aff(UMAX)]
+            ok = any(nonneg(x - r, CHAINS, facts) for x in bounds) or _wrap_tested(f, ev, st, before)
+            ctx.ob('C07.R7', tag, ok, '%s is bounded by a representable quantity' % fmt(r) if ok else
+                   'the unsigned %s %s has no provable upper bound here and no wrap test: for a large enough size it wraps, and the test or allocation that uses it takes the branch '
+                   'meant for small values (indices move backwards / a block smaller than its contents is allocated)' % ('sum' if op == '+' else 'product', fmt(r)), where=f.loc(st['i']))
+    if scanned < 12 or n < 5:
+        raise AnalysisBroken('expected >=12 Buffer methods scanned and >=5 unsigned operations in them, found %d / %d' % (scanned, n))
+
+
 def run(ctx):
     prog = extract('ALL' if ctx.tier == 'thorough' else SCOPE)
     ctx.guard(r1_invariant, ctx, prog)
@@ -365,4 +525,6 @@ def run(ctx):
     ctx.guard(r3_post, ctx, prog)
     ctx.guard(r4_independence, ctx, prog)
     ctx.guard(r5_commit_after_alloc, ctx, prog)
+    ctx.guard(r6_primitives, ctx, prog)
+    ctx.guard(r7_no_wrap, ctx, prog)
     return prog
